@@ -165,15 +165,7 @@ DDbs == Db \cup {"-"}
 CaseOK(c) == /\ (c.world = "noUsers" => c.ui = 1)
              /\ (c.world = "noAdmin" => ~U(c.ui).admin)
              /\ (c.op.kind = "write" => c.ddb = "-")
-\* filter form: cheap membership test (TypeOK)
-CasesF == {c \in [world : Worlds, ui : 1..NUsers, cc : CCs, op : Ops, ddb : DDbs] : CaseOK(c)}
-\* constructive form of the same set: cheap enumeration (Init)
-UsersIn(w) == IF w = "noUsers" THEN {1} ELSE IF w = "noAdmin" THEN {i \in 1..NUsers : ~U(i).admin} ELSE 1..NUsers
-CasesIn(w) == {[world |-> w, ui |-> i, cc |-> c, op |-> o, ddb |-> d] :
-                 i \in UsersIn(w), c \in CCs, o \in {x \in Ops : x.kind = "query"}, d \in DDbs}
-              \cup {[world |-> w, ui |-> i, cc |-> c, op |-> o, ddb |-> "-"] :
-                 i \in UsersIn(w), c \in CCs, o \in {x \in Ops : x.kind = "write"}}
-Cases == UNION {CasesIn(w) : w \in Worlds}
+Cases == {c \in [world : Worlds, ui : 1..NUsers, cc : CCs, op : Ops, ddb : DDbs] : CaseOK(c)}
 
 Target(n, ddb) == IF n.t = DFL THEN ddb ELSE n.t
 Has(u, p, d) == d \in Db /\ (u.priv[d] = p \/ u.priv[d] = "all")
@@ -251,7 +243,7 @@ Exec == /\ pc = "exec"
 Next == Authn \/ Authz \/ Exec
 Spec == Init /\ [][Next]_vars
 
-TypeOK == /\ case \in CasesF
+TypeOK == /\ case \in Cases
           /\ pc \in {"authn", "authz", "exec", "done"}
           /\ principal \in {"-", "anon", "user", "reject"}
           /\ status \in {0, 200, 204, 401, 403}
